@@ -231,12 +231,62 @@ agraph (float[2] x) => (float[2] y)
 }}"""
 
 
+def fam_rms_norm(rng: Rng) -> str:
+    """RMS-normalisation subgraph (rules/fusion/_rms_normalization stashes the compute dtype in check())."""
+    xt, xn = rng.choice([("float16", 10), ("float", 1), ("double", 11)])
+    compute = rng.choice([1, 11]) if xt == "float16" else None
+    eps = rng.choice(["1e-05", "1e-06", "0.001"])
+    ct = {1: "float", 11: "double"}.get(compute, xt)
+    xin, nout = ("xc", "nc") if compute else ("x", "n")
+    order = rng.choice([f"Mul({nout}, scale)", f"Mul(scale, {nout})"])
+    cast_in = f"xc = Cast <to = {compute}> (x)" if compute else "unused_in = Identity(x)"
+    cast_out = f"nc = Cast <to = {xn}> (n)" if compute else "unused_out = Identity(scale)"
+    return f"""<ir_version: 10, opset_import: ["" : 23]>
+agraph ({xt}[2,4] x, {xt}[4] scale) => ({xt}[2,4] y)
+<{ct} eps = {{{eps}}}, {ct} two = {{2.0}}, int64[1] axes = {{-1}}>
+{{
+   {cast_in}
+   sq = Pow({xin}, two)
+   ms = ReduceMean <keepdims = 1, noop_with_empty_axes = 0> (sq, axes)
+   mse = Add(ms, eps)
+   rms = Sqrt(mse)
+   rr = Reciprocal(rms)
+   n = Mul({xin}, rr)
+   {cast_out}
+   y = {order}
+}}"""
+
+
+def fam_layer_norm(rng: Rng) -> str:
+    """LayerNorm subgraph (rules/fusion/_layer_norm stashes epsilon and stash type in check())."""
+    xt = rng.choice(["float", "double"])
+    eps = rng.choice(["1e-05", "1e-06", "0.01"])
+    sq = rng.choice(["dd = Mul(d, d)", "dd = Pow(d, two)"])
+    norm = rng.choice(["inv = Reciprocal(sd)\n   n = Mul(d, inv)", "n = Div(d, sd)"])
+    bias = rng.chance(0.5)
+    tail = "ns = Mul(n, scale)\n   y = Add(ns, bias)" if bias else "y = Mul(n, scale)"
+    return f"""<ir_version: 10, opset_import: ["" : 18]>
+agraph ({xt}[2,4] x, {xt}[4] scale, {xt}[4] bias) => ({xt}[2,4] y)
+<{xt} eps = {{{eps}}}, {xt} two = {{2.0}}, int64[1] axes = {{-1}}>
+{{
+   mean = ReduceMean <keepdims = 1> (x, axes)
+   d = Sub(x, mean)
+   {sq}
+   var = ReduceMean <keepdims = 1> (dd, axes)
+   ve = Add(var, eps)
+   sd = Sqrt(ve)
+   {norm}
+   {tail}
+}}"""
+
+
 FAMILIES = {
     "pad_conv": fam_pad_conv, "pad_conv_tail": fam_pad_conv_fail_tail, "reshape_reshape": fam_reshape_reshape,
     "flatten": fam_flatten, "cast_cast": fam_cast_cast, "transpose": fam_transpose, "minmax": fam_minmax,
     "clip_relu": fam_clip_relu, "unsqueeze": fam_unsqueeze, "bn_conv": fam_batchnorm_conv, "bn_gemm": fam_batchnorm_gemm,
     "matmul_add": fam_matmul_add, "slice": fam_slice, "expand": fam_expand, "cast_cos": fam_cast_constant_of_shape,
     "mat_reshape": fam_materialize_reshape, "fold_chain": fam_fold_chain,
+    "rms_norm": fam_rms_norm, "layer_norm": fam_layer_norm,
 }
 
 
